@@ -113,7 +113,7 @@ type c30Attempt struct {
 	Opened   bool     `json:"opened"`
 	Usable   bool     `json:"usable"` // a request on the opened channel was answered
 	Refusal  string   `json:"refusal,omitempty"`
-	Answered string   `json:"answered,omitempty"` // not opened, but the server answered with an OPN response (not a refusal)
+	Answered string   `json:"answered,omitempty"`  // not opened, but the server answered with an OPN response (not a refusal)
 	Endpoint []string `json:"endpoints,omitempty"` // pairs advertised by GetEndpoints over this channel
 }
 
